@@ -258,7 +258,7 @@ def main(tier, seed):
         shape = rng.choice(['exact', 'exact', 'longer', 'nodual', 'nobasis'])
         xa, xb = Fr(rng.randint(-64, 64), 4), Fr(rng.randint(1, 31), 8)
         da, db = Fr(rng.randint(-64, 64), 4), Fr(rng.choice([-1, 1]) * rng.randint(1, 31), 8)
-        extra = ' %d' % 400 if shape == 'longer' else ''
+        extra = ' %d' % 20000 if shape == 'longer' else ''      # longer than any delivered model (approximations can add hundreds of variables; 400 was once shorter)
         S = ['status 0 scripted', 'ismip 0', 'x formula %s %s%s' % (float(xa), float(xb), extra)]
         if shape != 'nodual':
             for g, off in ((3, 0), (4, 1000), (6, 2000)):
